@@ -166,19 +166,38 @@ def _attr_reads(fdef):
     item = params[0]
     on_item, on_field, anywhere = set(), set(), set()
     fieldvars = set()
+    # locals that stand for the field list: aliases (all fields) and filtered copies (some fields dropped)
+    aliases, filtered = set(), set()
+    for n in ast.walk(fdef):
+        if isinstance(n, ast.Assign) and len(n.targets) == 1 and isinstance(n.targets[0], ast.Name):
+            v = n.value
+            vs = ast.unparse(v)
+            if f"{item}.fields" not in vs:
+                continue
+            if isinstance(v, (ast.ListComp, ast.GeneratorExp)) and any(g.ifs for g in v.generators):
+                filtered.add(n.targets[0].id)
+            elif isinstance(v, ast.Call) and isinstance(v.func, ast.Name) and v.func.id == "filter":
+                filtered.add(n.targets[0].id)
+            elif vs in (f"{item}.fields", f"list({item}.fields)", f"tuple({item}.fields)") or (isinstance(v, (ast.ListComp, ast.GeneratorExp)) and not any(g.ifs for g in v.generators)):
+                aliases.add(n.targets[0].id)
     for n in ast.walk(fdef):
         it = None
         if isinstance(n, ast.For):
             it, tgt = n.iter, n.target
         elif isinstance(n, ast.comprehension):
             it, tgt = n.iter, n.target
+            if n.ifs and f"{item}.fields" in ast.unparse(it):
+                filtered.add("<comprehension>")
         if it is not None:
-            # for field in item.fields / enumerate(item.fields)
+            # for field in item.fields / enumerate(item.fields) / an alias of it
             src_ = ast.unparse(it)
-            if f"{item}.fields" in src_:
+            names_in = {x.id for x in ast.walk(it) if isinstance(x, ast.Name)}
+            if f"{item}.fields" in src_ or (names_in & aliases):
                 for t in ast.walk(tgt):
                     if isinstance(t, ast.Name):
                         fieldvars.add(t.id)
+            elif names_in & filtered:
+                fdef._drops_fields = ast.unparse(it)
     for n in ast.walk(fdef):
         if isinstance(n, ast.Attribute):
             anywhere.add(n.attr)
@@ -214,6 +233,11 @@ def check_emitters(res, repo):
                 continue
             missing = required - on_item
             fmissing = (FIELD_REQUIRED - on_field) if kind in ("struct", "message") else set()
+            if kind in ("struct", "message") and fmissing and getattr(fd, "_drops_fields", None):
+                res["open"][name] = dict(kind="ensures", status="refuted", reason="attribute agreement", candidates=[],
+                                         text=f"{fn}:{fd.name} prints the fields of a FILTERED copy of the model's field list ({fd._drops_fields}): some fields of the "
+                                              f"struct are not printed, the other outputs print every field in order")
+                continue
             gone = {a for a in missing | fmissing if a not in anywhere}
             if gone:
                 res["open"][name] = dict(kind="ensures", status="refuted", reason="attribute agreement", candidates=[],
@@ -245,7 +269,7 @@ def replay_open(res, repo):
         elif "msg_type_id" in name or "host_id" in name or "module_id" in name:
             mine = [l for l in lines if "message id" in l]
         elif "/tables/" in name or "/emit/struct" in name or "/emit/message" in name or "type_alias" in name:
-            mine = [l for l in lines if "sizeof" in l or "offsetof" in l or "does not compile" in l]
+            mine = [l for l in lines if "sizeof" in l or "offsetof" in l or "does not compile" in l or "field list" in l]
         else:
             mine = [l for l in lines if "version hash" in l]
         info["verifier_output"] = info["text"]
